@@ -111,6 +111,40 @@ def run(tier):
                "function reads %s but no guard on it was found in its syntax tree (flag escapes the analysed guards)" % fl,
                key="flag-escapes:%s:%s" % (short, fl), file=b.relfile(), line=s["ln"], fn=b.path)
 
+    # ---------- (1b) every buffer write that is control-dependent on a flag must be one of the analysed macro sites
+    macro_lines = {}
+    for m in T.macros:
+        if m["macro"] in WRITERS:
+            for ln in range(m["line"], m["end_line"] + 1):
+                macro_lines.setdefault(m["file"].split("lalrpop/src/")[-1], set()).add(ln)
+    n_dep = 0
+    for b, bi, s, fl in reads:
+        tl, _, _ = core.taint(b, {s["p"]["l"]})
+        for sb, bl in enumerate(b.blocks):
+            t = bl["t"]
+            if t["k"] != "switch" or not (set(core.operand_locals(t["o"])) & tl):
+                continue
+            succs = list(dict.fromkeys(b.succ[sb]))
+            if len(succs) < 2:
+                continue
+            reach = [b.reachable([x]) for x in succs]
+            for i, r in enumerate(reach):
+                others = set().union(*[reach[j] for j in range(len(reach)) if j != i])
+                for blk in r - others:
+                    tt = b.blocks[blk]["t"]
+                    if tt["k"] != "call" or b.blocks[blk]["cleanup"]:
+                        continue
+                    c = core.callee_decl(tt) or ""
+                    if re.search(r"^std::io::Write::(write|write_all|write_fmt|write_vectored)$|RustWrite::<W>::(write_fmt|write_table_row|fn_header)$", c) or \
+                            re.search(r"as std::io::Write>::(write|write_all|write_fmt)$", core.callee_of(tt) or ""):
+                        n_dep += 1
+                        relf = b.relfile().split("lalrpop/src/")[-1]
+                        ok = tt["ln"] in macro_lines.get(relf, set())
+                        rep.ob("flag-dependent-write.is-an-analysed-site", "%s:%d %s under %s" % (b.relfile(), tt["ln"], c.split("::")[-1], fl), ok,
+                               "a direct write to the output buffer (not a rust!/write!/writeln! site) is control-dependent on %s: its content is not covered by the comment/white-space rules" % fl,
+                               key="raw-write-under-flag:%s:%s" % (b.path.split("::")[-1], fl), file=b.relfile(), line=tt["ln"], fn=b.path)
+    rep.analysed["flag_dependent_writes"] = n_dep
+
     # ---------- (2)(3) guarded emissions
     n_guarded = 0
     groups = {}
